@@ -51,7 +51,7 @@ theorem stepExtents_valid (qs es : List Extent) (hqs : ∀ q ∈ qs, q.valid) (h
 /-- array × array: the product's extent is the intersection, or the product is dropped -/
 theorem mul_extent [Mul K] (f q : Fld K) (hf : f.size1 = false) (hq : q.size1 = false) :
     (f.mul q).map Fld.extent = mulExtent f.extent q.extent := by
-  unfold Fld.mul
+  rw [Fld.mul_closed]
   simp only [hf, hq, Bool.false_and, Bool.false_eq_true, if_false]
   unfold Fld.mulArr mulExtent
   by_cases hi : intersect f.extent q.extent = true
@@ -66,7 +66,7 @@ theorem mul_scalar_left_extent [Mul K] (f q : Fld K) (hf : f.size1 = true) (hq :
   have hint : intersect q.extent q.extent = true := by rw [intersect_iff']; unfold Extent.valid at hv; omega
   have hbe : (f.broadcastTo q).extent = q.extent := rfl
   have h1 : f.mul q = (f.broadcastTo q).mulArr q := by
-    unfold Fld.mul
+    rw [Fld.mul_closed]
     simp only [hf, hq, Bool.and_false, Bool.false_eq_true, if_false, if_true]
   rw [h1]
   unfold Fld.mulArr
